@@ -91,6 +91,27 @@ theorem sim_sumOp (o : Ops V) (inp : String) :
   unfold sumOp
   sim_auto
 
+theorem sim_readAll (o : Ops V) (cols cells : List String) :
+    Sim n (fun _ => True) (readAll (σ := St V) o cols cells) (readAll (σ := ATab V) o cols cells) := by
+  unfold readAll
+  sim_auto
+macro_rules | `(tactic| sim_leaf) => `(tactic| exact sim_readAll _ _ _)
+
+theorem sim_opaqueVoid (o : Ops V) (cols cells : List String) (out : String) (vals : List V) :
+    Sim n (fun _ => True) (opaqueVoid (σ := St V) o cols cells out vals) (opaqueVoid (σ := ATab V) o cols cells out vals) := by
+  unfold opaqueVoid
+  sim_auto
+
+theorem sim_reverser (o : Ops V) (inp out : String) :
+    Sim n (fun _ => True) (reverser (σ := St V) o inp out) (reverser (σ := ATab V) o inp out) := by
+  unfold reverser
+  refine sim_bind sim_size (fun k hk => ?_)
+  refine sim_bind (sim_mapL (Q := fun _ => True) _ (fun i _ => sim_getObs o inp _)) (fun temp ht => ?_)
+  refine sim_setItem out (.list temp) ?_
+  simp only [List.length_range] at ht
+  simp only
+  omega
+
 theorem sim_hasSV (sv : SV V) : Sim n (fun _ => True) (hasSV (σ := St V) sv) (hasSV (σ := ATab V) sv) := by
   cases sv <;> (unfold hasSV; sim_auto)
 macro_rules | `(tactic| sim_leaf) => `(tactic| exact sim_hasSV _)
